@@ -54,6 +54,8 @@ func (bmach *Bondmachine) Fitness_default(in *simbox.Simbox, exp *simbox.Simbox,
 	if err := vm.Launch_processors(in); err != nil {
 		return 0, err
 	}
+	// Release the workers when the simulation ends
+	defer vm.Stop()
 
 	for i := uint64(0); i < sim_interactions; i++ {
 
